@@ -105,6 +105,18 @@ func (g *G) c20Marked() string {
 	// a marked subtree that adds no content words, only something visible (an image, a video, an
 	// embed, a data table or link-dense text that is not classified as content)
 	if g.chance(25, "mwordless") {
+		if g.chance(30, "mwlself") {
+			// the marker sits on the media element itself, not on a wrapper
+			mark := c20MarkOpen + g.c20Marker() + c20MarkClose
+			switch g.pick("mwlselfk", "img", "figure", "iframe") {
+			case "img":
+				return c20SubOpen + `<img` + mark + ` src="` + g.url("img") + `" width="800" height="600">` + "\n" + c20SubClose
+			case "figure":
+				return c20SubOpen + `<figure` + mark + `><img src="` + g.url("img") + `" width="800" height="600"><figcaption>` + g.words(4) + "</figcaption></figure>\n" + c20SubClose
+			default:
+				return c20SubOpen + `<iframe` + mark + ` src="http://www.youtube.com/embed/` + g.tokp("yt") + `"></iframe>` + "\n" + c20SubClose
+			}
+		}
 		switch g.pick("mwl", "img", "img", "video", "youtube", "dtable", "links") {
 		case "img":
 			inner = `<img src="` + g.url("img") + `" width="800" height="600">`
